@@ -133,6 +133,12 @@ DES_NOTE = ("Trusted: the driver (harness/des.c), the monitor for this property 
 HOG_OPS = "racq0,rrel0,hold0,hold1,int0,int1,exit"
 
 
+# a holder that is preempted and, in the same instant, interrupted by an event of higher priority (which runs first)
+PRE_INT = des("p3-preempt-then-interrupt", "mutex", 3, procs=3, prios="0,1,2", budget=4, res=1,
+              ops="racq0,rrel0,rpre0,hold0,hold1,int0,int0h,int1h,exit",
+              script0="racq0,hold2,rrel0", script1="hold1,hold1", script2="hold1,rpre0,int0h,hold1")
+
+
 def c05_jobs(tier):
     ops = "racq0,rrel0,rpre0,hold0,hold1,tadd1,int0,int1,int2,stop1,exit,prio0.2,prio2.0"
     if tier == "quick":
@@ -153,13 +159,14 @@ def c05_jobs(tier):
             # a waiter that loses the hand-over race to a re-acquiring releaser twice in a row
             des("p2-hog", "mutex", 3, procs=2, prios="0,0", budget=8, res=1, ops=HOG_OPS,
                 script0="racq0,hold1,rrel0,racq0,hold1,rrel0,racq0,hold1", script1="racq0,hold1,rrel0"),
+            PRE_INT,
         ]
     j1 = des("p3-loop", "mutex", 4, 1500, procs=3, prios="0,1,2", budget=5, res=1, ops=ops,
              script="racq0,hold1,rrel0,racq0,hold1")
     j2 = des("p3-eqprio", "mutex", 4, 1500, procs=3, prios="0,0,0", budget=5, res=1, ops=ops,
              script="racq0,hold1,rrel0,racq0,hold1")
     return [
-        deep(j1, 6), deep(j2, 6),
+        deep(j1, 6), deep(j2, 6), PRE_INT,
         des("p3-loop", "mutex", 4, 1500, procs=3, prios="0,1,2", budget=5, res=1, ops=ops,
             script="racq0,hold1,rrel0,racq0,hold1"),
         des("p3-eqprio", "mutex", 4, 1500, procs=3, prios="0,0,0", budget=5, res=1, ops=ops,
@@ -433,6 +440,11 @@ def c07_jobs(tier):
                     ops="pacq1000h,pacq1,pacq400,ppre400,ppre1000h,prel400,prel600,prel1,prel1000h,hold0,hold1,int0,exit",
                     script0="pacq1000h,prel400,hold1,prel600", script1="pacq400,hold1,prel400",
                     script2="hold1,ppre400,hold1"))
+    # a holder in the middle of a second acquire loses everything to a preemption and is interrupted (with a higher event
+    # priority, so the interrupt arrives first) in the same instant
+    jobs.append(des("cap2-preempt-then-interrupt", "pool", b, dl, procs=3, prios="0,1,2", budget=4, pool=2,
+                    ops="pacq1,pacq2,ppre1,ppre2,prel1,hold0,hold1,int0,int0h,int1h,exit",
+                    script0="pacq1,pacq2,hold1", script1="pacq1,hold2,hold1", script2="hold1,ppre1,int0h,hold1"))
     # a pool acquisition in progress that is ended by the preemption of a RESOURCE the caller holds
     jobs.append(des("cap2-with-resource", "pool", b, dl, procs=3, prios="0,1,2", budget=4, pool=2, res=1,
                     ops="pacq1,pacq2,ppre2,prel1,prel2,racq0,rpre0,rrel0,hold0,hold1,int0,exit",
